@@ -8,6 +8,7 @@ import (
 
 	"github.com/pingcap/kvproto/pkg/metapb"
 	"github.com/pingcap/kvproto/pkg/pdpb"
+	"go.etcd.io/etcd/clientv3"
 	"google.golang.org/grpc/metadata"
 
 	"pdverif/internal/res"
@@ -130,18 +131,20 @@ func servedAfterResetProbe(R *res.Result) {
 	leaderKey := x.S.GetMember().GetLeaderPath()
 
 	x.S.GetMember().GetLeadership().Reset()
+	// the foreign record goes in only if the key is still free: a member that was quick enough to win again (a stalled
+	// probe on a loaded machine) serves rightfully, and the probe is skipped
+	pctx, pcancel := context.WithTimeout(ctx, 5*time.Second)
+	tr, err := x.S.GetClient().Txn(pctx).If(clientv3.Compare(clientv3.CreateRevision(leaderKey), "=", 0)).Then(clientv3.OpPut(leaderKey, string(data))).Commit()
+	pcancel()
+	if err != nil || !tr.Succeeded {
+		R.Notes = append(R.Notes, "served-after-reset probe skipped: the leader key was taken again before the foreign record could be written")
+		return
+	}
 	// the next message on the established stream, at once: the raft cluster is still running
 	select {
 	case hb.in <- beat(2, "m"):
 	case <-hbDone: // the handler has already left: nothing more can be served on this stream
 	case <-time.After(2 * time.Second):
-	}
-	pctx, pcancel := context.WithTimeout(ctx, 5*time.Second)
-	_, err = x.S.GetClient().Put(pctx, leaderKey, string(data))
-	pcancel()
-	if err != nil {
-		R.Notes = append(R.Notes, "served-after-reset probe skipped: "+err.Error())
-		return
 	}
 	R.Count("served-after-reset:probed")
 	served := func(h, what string) {
